@@ -432,6 +432,11 @@ class Interp:
                     list.__delitem__(lst, i)
                     return None
             raise PyExc(ValueError("list.remove(x): x not in list"))
+        if type(fn).__name__ == "_lru_cache_wrapper" and is_repo_function(getattr(fn, "__wrapped__", None)):
+            # a memo filled with decoded values: its entries outlive the decode and are found again through == / hash of the
+            # value (which the typed integers define by number, across types) - shared state written by the decode
+            self.ctx.frame_writes.append(f"lru_cache of {fn.__wrapped__.__module__}.{fn.__wrapped__.__qualname__} is filled with a decoded value (entries outlive the decode; keys compare by number across types)")
+            return (yield from self.call(fn.__wrapped__, args, kwargs, node, frame))
         # callable instance with repo __call__?
         call = getattr(type(fn), "__call__", None)
         if is_repo_function(call):
@@ -771,6 +776,10 @@ class Interp:
             yield from self.exec_block(node.orelse, frame)
 
     def x_Assert(self, node, frame):
+        if any(isinstance(n, (ast.Yield, ast.YieldFrom, ast.Await, ast.NamedExpr)) for n in ast.walk(node.test)):
+            # assert statements are not compiled under `python -O`: one that yields / assigns takes its effect with it
+            self.ctx.record("SAFETY/assert-has-no-effect-of-its-own", False, "safety", self.site(node, frame),
+                            detail="the asserted expression yields or assigns: under python -O the statement, and with it the event / value, disappears")
         c = yield from self.eval(node.test, frame)
         self.ctx.count_safety("assert", self.site(node, frame))
         if not self.truth(c):
